@@ -132,9 +132,16 @@ def gen_bt(rng, family=None, max_chroms=5, max_bins=30, widths=(1, 2, 3, 5, 10, 
             if b == 1000:
                 b = 10
             if ci == 0:
-                trap_kind = int(rng.integers(2))
+                trap_kind = int(rng.integers(3))
             nb = max(nb, 2 if ci == 0 else 1)
-            if trap_kind == 0:
+            if trap_kind == 2:
+                # (iii) only the FIRST chromosome ends in a longer bin; the others are plain fixed-width
+                if ci == 0:
+                    nb = max(nb, 3)
+                    edges = [i_ * b for i_ in range(nb)] + [(nb - 1) * b + b + int(rng.integers(1, b + 3))]
+                else:
+                    edges = fixed_edges(max(nb, 2) * b - int(rng.integers(0, b)), b)
+            elif trap_kind == 0:
                 edges = [i * b for i in range(nb)] + [(nb - 1) * b + b + int(rng.integers(1, b + 3))]
                 if nb == 1 and ci > 0:
                     edges = [0, int(rng.integers(1, 3 * b))]
@@ -264,3 +271,31 @@ def random_cuts(rng, n, kmax=6, allow_empty=True):
 
 def chunk_frames(df, cuts):
     return [df.iloc[a:b].reset_index(drop=True) for a, b in zip(cuts[:-1], cuts[1:])]
+
+
+def gen_coarse_trap_bt(rng, k):
+    """Variable-width table whose k-coarsening has uniform width W in all but the last coarse bin
+    of the FIRST chromosome, which is longer than W and contains an old bin that starts at or
+    beyond (its start + W). The last chromosome ends in a coarse bin no wider than W."""
+    W = int(rng.integers(k, 4 * k + 1))
+
+    def comp(total, parts):
+        cuts = sorted(rng.choice(np.arange(1, total), size=parts - 1, replace=False).tolist()) if parts > 1 else []
+        e = [0] + cuts + [total]
+        return [b - a for a, b in zip(e[:-1], e[1:])]
+    bt = []
+    nch = int(rng.integers(2, 4))
+    for ci in range(nch):
+        widths = []
+        for _ in range(int(rng.integers(1, 4))):
+            widths += comp(W, k) if W > k else [1] * k
+        if ci == 0:
+            first = W + int(rng.integers(0, 4))
+            widths += [first] + [int(rng.integers(1, 4)) for _ in range(k - 1)]
+        else:
+            last_total = int(rng.integers(1, W + 1))
+            parts = int(rng.integers(1, min(k, last_total) + 1))
+            widths += comp(last_total, parts) if last_total > 1 or parts == 1 else [last_total]
+        edges = [0] + np.cumsum(widths).tolist()
+        bt.append([NAMES[ci], [int(x) for x in edges]])
+    return bt
